@@ -8,7 +8,7 @@ From Coq Require Import String.
 From Emmet Require Import lib.Base lib.StrLit model.MarkupTokenizer model.MarkupParser model.MarkupConvert
      model.MarkupResolve proofs.ParserSpine proofs.TextSpec proofs.TextProofs proofs.TextParse proofs.TextLiteral
      proofs.TextConvert proofs.TextForest proofs.TextWrap proofs.TextWrapLeaf model.OutStream model.FormatHtml
-     proofs.TextStream proofs.TextHtml.
+     proofs.TextStream proofs.TextHtml proofs.TextPlain.
 
 (* text_literal.  For EVERY payload T whose braces balance modulo escapes and whose `$` are escaped --
    operators, brackets, quotes, `*`, white space, line breaks, unicode included -- the front end
@@ -84,9 +84,21 @@ Theorem C04_wrap_implicit_partial :
 Proof. exact wrap_implicit_convert. Qed.
 Print Assumptions C04_wrap_implicit_partial.
 
-(* wrap_plain.  If converting the abbreviation did not consume the text (no implicit repeater, no `$#`),
-   the whole text, joined and stripped as the code does it, is inserted once into the deepest last element. *)
+(* wrap_plain.  For EVERY abbreviation tree without `$#` and without an implicit repeater ([quiet_all]:
+   any nesting, groups, explicit repeaters, numbering, attributes) and EVERY text (one string or a list
+   of lines): the result is the tree the abbreviation yields without text, with the whole text -- joined
+   and stripped as the code does it -- inserted once into its deepest last element. *)
 Theorem C04_wrap_plain :
+  forall (env : cenv) (mr : option N) (root : list tnode),
+    ce_text env <> WNone -> quiet_all root ->
+    convert env mr root =
+      (let* children := convert (no_text env) mr root in
+       Ok (on_last_deepest (fun n => insert_text n (whole_text (ce_text env))) children)).
+Proof. exact wrap_plain_full. Qed.
+Print Assumptions C04_wrap_plain.
+
+(* ... in fact whenever converting the abbreviation did not consume the text *)
+Theorem C04_wrap_plain_unconsumed :
   forall (env : cenv) (mr : option N) (root : list tnode) (children : list anode) (st : cst),
     ce_text env <> WNone ->
     conv_list env root
@@ -94,7 +106,7 @@ Theorem C04_wrap_plain :
     cs_text_inserted st = false ->
     convert env mr root = Ok (on_last_deepest (fun n => insert_text n (whole_text (ce_text env))) children).
 Proof. exact wrap_plain. Qed.
-Print Assumptions C04_wrap_plain.
+Print Assumptions C04_wrap_plain_unconsumed.
 
 (* "the deepest last element", for ALL forests: in document order every node keeps its depth and
    payload, except the node visited last, whose value receives the text at its end *)
@@ -177,3 +189,10 @@ Example C04_wrap_nonvacuous :
     Ok [ANode (Some (S "li")) (Some [VStr (S "[ul>li*3]")]) (Some (mkRep 2 0 true)) None [] false;
         ANode (Some (S "li")) (Some [VStr (S "[$$]")]) (Some (mkRep 2 1 true)) None [] false].
 Proof. vm_compute. reflexivity. Qed.
+
+(* non-vacuity of wrap_plain: `ul>li.c$*2` is quiet, and its conversion with text computes *)
+Example C04_plain_nonvacuous :
+  exists root, (let* toks := match tokenize (S "ul>li.c$*2") with TOk l => Ok l | TErr _ => Internal 0%N end in
+                match parse false toks with POk r => Ok r | PErr _ => Internal 0%N end) = Ok root
+               /\ quiet_all root.
+Proof. eexists. split; [vm_compute; reflexivity|]. cbn. repeat split; repeat constructor; try discriminate. Qed.
